@@ -31,8 +31,8 @@ type Family struct {
 
 // Roles are the resolved anchors of the rules.
 type Roles struct {
-	P        *core.Prog
-	RootPath string
+	P                                                    *core.Prog
+	RootPath                                             string
 	StorePath, CachePath, TypesPath, ConfigPath, CmdPath string
 	IStore, IRepo, IBlobCreator                          *types.Named
 	Families                                             []*Family
@@ -41,7 +41,6 @@ type Roles struct {
 	Handlers                                             []*ssa.Function // functions of the root package taking an http.ResponseWriter
 	APIMethods                                           map[string]map[string]bool
 }
-
 
 func LookupNamed(pk *types.Package, name string) *types.Named {
 	if pk == nil {
